@@ -49,9 +49,11 @@ M = {
    "        network_node.add_annotation(NodeAnnotation::Send(i as u64, im1))?;\n        network_node.add_annotation(NodeAnnotation::Send(i as u64, ((i + 1) % PARTIES) as u64))?;\n        outputs.push(network_node);",
    "share_node sends every share to both other parties", "C03"),
  "dedup-ignore-annotations": ("ciphercore-base/src/optimizer/duplicates_optimizer.rs",
-   "        self.deps == other.deps && self.annotations == other.annotations && self.op == other.op",
-   "        self.deps == other.deps && self.op == other.op",
-   "duplicates optimiser ignores annotations in equality (hash still includes them)", "C02/C06"),
+   [("        self.deps == other.deps && self.annotations == other.annotations && self.op == other.op",
+     "        self.deps == other.deps && self.op == other.op"),
+    ("        self.annotations.hash(state);\n", "")],
+   None,
+   "duplicates optimiser ignores annotations (merges a sent NOP with its un-sent twin)", "C02/C06"),
 }
 def main():
     root, mid = sys.argv[1], sys.argv[2]
@@ -61,7 +63,10 @@ def main():
     f, old, new, _, _ = M[mid]
     p = f"{root}/{f}"
     s = open(p).read()
-    assert s.count(old) == 1, f"pattern occurs {s.count(old)} times"
-    open(p, "w").write(s.replace(old, new))
+    pairs = old if isinstance(old, list) else [(old, new)]
+    for o, n in pairs:
+        assert s.count(o) == 1, f"pattern occurs {s.count(o)} times"
+        s = s.replace(o, n)
+    open(p, "w").write(s)
     print("applied", mid, "to", p)
 main()
